@@ -10,6 +10,7 @@ import (
 	"path/filepath"
 	"sort"
 	"strings"
+	"sync"
 
 	"golang.org/x/tools/go/callgraph"
 	"golang.org/x/tools/go/callgraph/cha"
@@ -23,21 +24,22 @@ const sodPath = "github.com/0xrawsec/sod"
 
 // Prog is the resolved program every engine works on.
 type Prog struct {
-	Repo   string
-	Fset   *token.FileSet
-	Pkg    *packages.Package
-	Types  *types.Package
-	Info   *types.Info
-	SSA    *ssa.Program
-	SPkg   *ssa.Package
-	CG     *callgraph.Graph
-	Files  []string // base names of analysed files
-	Funcs  []*ssa.Function // all functions with bodies belonging to the sod package (incl. closures)
-	NPkgs  int
-	A      *Anchors
-	GoRoot map[*ssa.Function]bool // started by a go statement (closure or named function)
-	GoOnly map[*ssa.Function]bool // runs only on spawned goroutines: a go root, or called only from such functions
+	Repo        string
+	Fset        *token.FileSet
+	Pkg         *packages.Package
+	Types       *types.Package
+	Info        *types.Info
+	SSA         *ssa.Program
+	SPkg        *ssa.Package
+	CG          *callgraph.Graph
+	Files       []string        // base names of analysed files
+	Funcs       []*ssa.Function // all functions with bodies belonging to the sod package (incl. closures)
+	NPkgs       int
+	A           *Anchors
+	GoRoot      map[*ssa.Function]bool // started by a go statement (closure or named function)
+	GoOnly      map[*ssa.Function]bool // runs only on spawned goroutines: a go root, or called only from such functions
 	idxDelCache map[*ssa.Function]bool
+	idxDelMu    sync.Mutex
 }
 
 type brokenCheck struct{ msg string }
@@ -347,10 +349,13 @@ func gcBCE(repo string) (map[string]bool, error) {
 // object index (uuid -> id or id -> uuid) and never adds to one. (An insertion helper split off the accepting insertion
 // writes the same structures but adds membership entries.)
 func (p *Prog) IsIndexDelete(f *ssa.Function) bool {
+	p.idxDelMu.Lock()
 	if p.idxDelCache == nil {
 		p.idxDelCache = map[*ssa.Function]bool{}
 	}
-	if v, ok := p.idxDelCache[f]; ok {
+	v, ok := p.idxDelCache[f]
+	p.idxDelMu.Unlock()
+	if ok {
 		return v
 	}
 	a := p.A
@@ -374,7 +379,9 @@ func (p *Prog) IsIndexDelete(f *ssa.Function) bool {
 		}
 	}
 	res := dels && !adds
+	p.idxDelMu.Lock()
 	p.idxDelCache[f] = res
+	p.idxDelMu.Unlock()
 	return res
 }
 
